@@ -208,6 +208,8 @@ def history_features(ops, ci=False):
 
 _OBSERVED = object()
 _LAS = None
+_EMPTY_PARAMS_TEXT = ("~Version\nVERS. 2.0 : v\nWRAP. NO : w\n~Well\nSTRT.M 1 : s\nSTOP.M 2 : s\nSTEP.M 1 : s\nNULL. -999.25 : n\n"
+                      "~Curves\nDEPT.M : d\n~Parameter\n~ASCII\n1\n2\n")
 
 
 class Driver(object):
@@ -231,9 +233,15 @@ class Driver(object):
             self.las = _LAS
             self.las.sections["Curves"] = lasio.SectionItems()
             self.section = self.las.curves
+        elif flavour == "file-params":
+            # the (empty) ~Parameter section of a file as the reader hands it over: whether it ignores case is
+            # the reader's decision (mnemonic_case), not this driver's
+            las = lasio.read(_EMPTY_PARAMS_TEXT, mnemonic_case="upper" if ci else "preserve")
+            self.section = las.params
+            self.flavour = "header"
         else:
             self.section = lasio.SectionItems()
-        if ci:
+        if ci and flavour != "file-params":
             # exactly what the reader does for mnemonic_case != 'preserve'
             self.section.mnemonic_transforms = True
         self.objs = []  # expected content (identity), maintained with plain list semantics
